@@ -157,6 +157,14 @@ func loadEngine(repo, verif string) (*Engine, error) {
 					if en, ok := sl.Elem().(*types.Named); ok {
 						fld, elem = stt.Field(i).Name(), en.Obj().Name()
 						cnt++
+						// does the element type carry a changeability flag (eebus:"writecheck")?
+						if est, ok := en.Underlying().(*types.Struct); ok {
+							for k := 0; k < est.NumFields(); k++ {
+								if strings.Contains(est.Tag(k), "writecheck") {
+									elem += "|wc"
+								}
+							}
+						}
 					}
 				}
 			}
@@ -337,7 +345,16 @@ func (e *Engine) findFunction(key string) *ssa.Function {
 			return fn
 		}
 	}
-	return nil
+	// methods of generic types: only their instances are enumerated; the generic body is the instances' origin
+	var best *ssa.Function
+	for fn := range ssautil.AllFunctions(e.prog) {
+		if o := fn.Origin(); o != nil && len(o.Blocks) > 0 && stripTypeParams(o.String()) == key {
+			if best == nil {
+				best = o
+			}
+		}
+	}
+	return best
 }
 
 // findFunctionFor resolves the function a contract is verified on: the named instantiation of a
